@@ -509,8 +509,12 @@ def r13_5(ck):
             flagp = info['cond'].id
     for d in dels:
         t = d.targets[0]
+        from ..dataflow import expand
+        from ..loader import enclosing_stmt
         same = {n for n, c in ends.items()
-                if A.unparse(A.arg_of(c, 0)) == A.unparse(t)}
+                if A.unparse(expand(f.node, A.arg_of(c, 0),
+                                    enclosing_stmt(c))) == A.unparse(
+                    expand(f.node, t, d))}
         ok = bool(same) and cfg.must_pass(cfg.entry, cfg.node(d),
                                           same | skip)
         ck.require(ok, 'R13.5', f, d,
@@ -623,7 +627,20 @@ def r13_6(ck):
                'nested dictionaries are traversed', None)
     # the wrapped object is returned / stored
     rets = [r for r in A.walk_no_nested(pp.node) if isinstance(r, ast.Return)]
-    ok = bool(rets) and all(A.is_name(r.value, A.params_of(pp.node)[1])
+    p1 = A.params_of(pp.node)[1]
+
+    def fine(v):
+        if A.is_name(v, p1):
+            return True
+        if isinstance(v, ast.Call) and A.call_name(v) == \
+                'ParallelProcess' and A.is_name(A.arg_of(v, 0), p1):
+            return True
+        if isinstance(v, (ast.DictComp, ast.Dict)) and any(
+                isinstance(x, ast.Call) and A.call_name(x) ==
+                '_parallelize_processes' for x in ast.walk(v)):
+            return True
+        return False
+    ok = bool(rets) and all(r.value is not None and fine(r.value)
                             for r in rets)
     ck.require(ok, 'R13.6', pp, rets[0] if rets else pp.node.name,
                'the (possibly wrapped) object is returned', None)
